@@ -23,13 +23,13 @@ type Ev map[string]any
 // sequence number is taken under the tracer's mutex, inside the callback that
 // observed the event, so the file order is the order of the observations.
 type Tracer struct {
-	mu      sync.Mutex
-	w       *bufio.Writer
-	f       *os.File
-	seq     int64
-	traceID int64
-	events  []Ev // events of the current trace (kept for replay files)
-	keep    bool
+	mu       sync.Mutex
+	w        *bufio.Writer
+	f        *os.File
+	seq      int64
+	traceID  int64
+	events   []Ev // events of the current trace (kept for replay files)
+	keep     bool
 	defaults Ev
 }
 
